@@ -95,6 +95,11 @@ def run(chk: Check, ctx: Any) -> None:
                        "alphabet that can occur there in an accepted source (no Error token); '\\n' is covered by the engine")
     chk.rule("C17-R3", "every action is a plain token type, so each match emits exactly its own text")
     chk.rule("C17-R4", "every state named by include()/push exists; '#pop' only pops states that were pushed")
+    chk.rule("C17-R5", "no rule regex has a loop that matches one text in two ways before a part that can fail (a backtracking "
+                       "matcher then needs exponential time: the lexer does not end in practice)")
+    chk.rule("C17-R6", "the token table, run by a model of the RegexLexer loop (and through the class's own driver override, if "
+                       "it has one) on sample texts: the token texts concatenate to the input, the loop ends, and sources the "
+                       "grammar accepts get no Error token")
 
     mod = repo.mod(LEXER_MOD)
     if LEXER_CLS not in mod.classes:
@@ -206,11 +211,29 @@ def run(chk: Check, ctx: Any) -> None:
                               node=r["node"])
             else:
                 chk.hold("C17-R1", key, fake, "non-nullable", node=r["node"])
+            # R5
+            try:
+                amb = rx.exponential_ambiguity(tree, flags)
+            except (OverflowError, RecursionError) as ex:
+                chk.unknown("C17-R5", key, fake, f"ambiguity analysis gave up: {ex}", node=r["node"])
+            else:
+                if amb:
+                    chk.violation("C17-R5", key, fake, f"regex {r['pattern']!r} in state {st!r}: {amb}", node=r["node"])
+                else:
+                    chk.hold("C17-R5", key, fake, "no exponentially ambiguous loop", node=r["node"])
             # R3
             act = r["action"]
             d = dotted(act)
             res = repo.resolve(mod, d) if d else None
             plain = bool(d) and res is not None and res[0] == "external" and str(res[1]).startswith("pygments.token.")
+            if plain and str(res[1]).split(".")[2:3] == ["Error"] and st in enterable:  # type: ignore[index]
+                # an explicit Error action: reachable on an accepted source unless earlier rules are certain to match first
+                need_e = alphabet_root if st == "root" else rx.CharSet.all()
+                hit = rx.first_set(tree, flags).intersect(need_e).minus(cover)
+                if not hit.is_empty():
+                    chk.violation("C17-R2", f"error-action:{key}", fake,
+                                  f"rule {r['pattern']!r} in state {st!r} emits an Error token on characters {hit.describe()} that can "
+                                  "stand there in an accepted source", node=r["node"])
             if plain:
                 chk.hold("C17-R3", key, fake, f"plain token type {d}", node=r["node"])
             elif isinstance(act, ast.Call) and dotted(act.func) == "bygroups" and not act.keywords:
@@ -265,6 +288,121 @@ def run(chk: Check, ctx: Any) -> None:
                           f"state {st!r}: no rule is certain to match on characters {missing.describe()} "
                           "that can occur there in an accepted source; the engine yields an Error token",
                           facts={"missing": missing.describe(12)})
+    if any(f.rule == "C17-R5" and f.verdict == "VIOLATION" for f in chk.findings):
+        # matching such a pattern on the samples would take this check as long as it takes the lexer
+        chk.hold("C17-R6", "not-run", fake, "samples not lexed: a pattern with an exponentially ambiguous loop is reported by C17-R5")
+    else:
+        _sample_rule(chk, ctx, mod, cls, fake, rules_by_state, flags)
     chk.extra["lexer_states"] = {s: len(r) for s, r in rules_by_state.items()}
     chk.extra["enterable_states"] = sorted(enterable)
     chk.extra["flags"] = flags
+
+
+DRIVER_METHODS = {"get_tokens", "_preprocess_lexer_input", "add_filter", "__init__", "__call__", "process_tokendef", "get_tokendefs"}
+
+
+def _sample_rule(chk: Check, ctx: Any, mod: Any, cls: Any, fake: Any, rules_by_state: dict[str, list[dict[str, Any]]], flags: int) -> None:
+    from . import lexrun
+    from ..engine.absint import AObj, Interp, PyExc, Unsupported
+    rule = "C17-R6"
+    repo = ctx.repo
+    # ---- the table in executable form
+    table: dict[str, list[dict[str, Any]]] = {}
+    for st, rs in rules_by_state.items():
+        table[st] = []
+        for r in rs:
+            act = r["action"]
+            d = dotted(act)
+            emit: list[tuple[int, Any]] | None = None
+            if d:
+                res = repo.resolve(mod, d)
+                tt = lexrun.token_type(str(res[1])) if res is not None and res[0] == "external" else None
+                if tt is not None:
+                    emit = [(0, tt)]
+            elif isinstance(act, ast.Call) and dotted(act.func) == "bygroups" and not act.keywords:
+                emit = []
+                for i, a in enumerate(act.args):
+                    if isinstance(a, ast.Constant) and a.value is None:
+                        continue
+                    da = dotted(a)
+                    ra = repo.resolve(mod, da) if da else None
+                    tt = lexrun.token_type(str(ra[1])) if ra is not None and ra[0] == "external" else None
+                    if tt is None:
+                        emit = None
+                        break
+                    emit.append((i + 1, tt))
+            if emit is None:
+                chk.unknown(rule, f"table:{st}:{r['pattern']}", fake, f"action {norm(act)} is not modelled", node=r["node"])
+                return
+            try:
+                crx = re.compile(r["pattern"], flags)
+            except re.error:
+                return  # reported by R1
+            table[st].append({"rx": crx, "emit": emit, "new": r["new"], "pattern": r["pattern"]})
+    # ---- the class's own driver
+    override = None
+    for name, fn in cls.methods.items():
+        if name == "get_tokens_unprocessed":
+            override = Func(mod, cls, fn)
+        elif name in DRIVER_METHODS:
+            chk.unknown(rule, f"driver:{name}", fake, f"the lexer class overrides {name}(), a part of the pygments driver this rule does not model", node=fn)
+            return
+    interp = None
+    if override is not None:
+        interp = Interp(repo, ctx.fold, max_steps=3_000_000)
+        for nm, path in lexrun.STANDARD.items():
+            interp.native_consts["pygments.token." + nm] = lexrun.TokType.get(path)
+
+    def run_on(text: str) -> list[tuple[int, Any, str]]:
+        if override is None:
+            return lexrun.lex(table, flags, text)
+        assert interp is not None
+        interp.steps = 0
+        interp.natives["super.get_tokens_unprocessed"] = lambda selfv, t, stack=("root",): lexrun.lex(table, flags, t, tuple(stack))
+        me = AObj(cls)
+        out = interp.call_func(override, [me, text], {})
+        toks = list(interp.iterate(out))
+        res = []
+        for t in toks:
+            if not (isinstance(t, tuple) and len(t) == 3 and isinstance(t[2], str)):
+                raise Unsupported("the driver override yields something other than (index, token type, text)")
+            res.append(t)
+        return res
+
+    g = ctx.grammar_exps
+    n = 0
+    for kind, samples in (("accepted", lexrun.ACCEPTED_SOURCES), ("any", lexrun.ANY_TEXTS)):
+        for title, text in samples:
+            key = f"{kind}:{title}"
+            if kind == "accepted":
+                try:
+                    ok = g.parse_text("start", text) is not None
+                except AnalysisError:
+                    ok = False
+                if not ok:
+                    raise AnalysisError(f"C17-R6 sample {title!r} is not accepted by the grammar any more")
+            # pygments normalises line ends before lexing
+            t2 = text.replace("\r\n", "\n").replace("\r", "\n")
+            try:
+                toks = run_on(t2)
+            except lexrun.LexLoop as ex:
+                chk.violation(rule, key, fake, f"on the sample {title!r} the lexer does not end: {ex}", facts={"text": t2[:200]})
+                continue
+            except PyExc as ex:
+                chk.violation(rule, key, fake, f"on the sample {title!r} the lexer raises {ex.cls_name}: {ex}", facts={"text": t2[:200]})
+                continue
+            except Unsupported as ex:
+                chk.unknown(rule, key, fake, f"not evaluated: {ex}")
+                continue
+            n += 1
+            lost = lexrun.preservation(toks, t2)
+            errs = [(p, v) for p, tt, v in toks if isinstance(tt, lexrun.TokType) and tt in lexrun.TokType.get(("Error",))]
+            if lost:
+                chk.violation(rule, key, fake, f"on the sample {title!r} {lost}", facts={"text": t2[:200]})
+            elif kind == "accepted" and errs:
+                chk.violation(rule, key, fake, f"the accepted source {title!r} gets Error token(s), first at position {errs[0][0]} for {errs[0][1]!r}",
+                              facts={"text": t2[:200]})
+            else:
+                chk.hold(rule, key, fake, f"{len(toks)} tokens, texts concatenate to the input" + (", no Error token" if kind == "accepted" else ""))
+    chk.floor(rule, "sample texts lexed", n, 30)
+    chk.extra["driver_override"] = override is not None
